@@ -191,3 +191,53 @@ theorem C02.discr_one_volume_fails :
       Space.inner, dInner, scalesBoundary, uniformlyWeighted, allClose1, TW.isWeighted, tInner,
       innerDefault, sumTo, axesSize]
   · norm_num
+
+/-- For exponent 2 (at the root; tensor, discretized or product space, any weighting with
+positive weights): `‖x‖² = re ⟨x, x⟩` and `‖x‖ ≥ 0`, where `‖x‖` is the value computed by the
+code's own norm branch (`sqrt(c)·nrm2`, `sqrt(max(re⟨x,x⟩,0))`, boundary scaling by
+`frac ** (1/2)`, `sqrt(re Σ wₖ⟨xₖ,xₖ⟩)`). -/
+theorem C02.norm2_sq_eq_inner (close1 : ℝ → Bool) (s : Space ℝ) (hs : SpacePos s)
+    (hp : expoOf s = .two) (x : El 𝕜) (hx : Shaped s x) :
+    (Space.norm (ops 𝕜) (roots close1) s x) ^ 2 = RCLike.re (Space.inner (ops 𝕜) close1 s x x) ∧
+      0 ≤ Space.norm (ops 𝕜) (roots close1) s x := by
+  cases s with
+  | tens n w p =>
+    cases x with
+    | tup => simp [Shaped] at hx
+    | vec x =>
+      simp only [expoOf] at hp; subst hp
+      simp only [Space.norm, Space.inner, tInner_eq_wsum, wsum_self, RCLike.ofReal_re]
+      exact tNorm_two_sq close1 w n hs x
+  | discr u axes w p =>
+    cases x with
+    | tup => simp [Shaped] at hx
+    | vec x =>
+      simp only [expoOf] at hp; subst hp
+      simp only [Space.norm, Space.inner, dInner_eq_wsum, wsum_self, RCLike.ofReal_re]
+      exact dNorm_two_sq close1 u axes w hs.1 hs.2 x
+  | prod m w p comp =>
+    cases x with
+    | vec => simp [Shaped] at hx
+    | tup xs =>
+      simp only [expoOf] at hp; subst hp
+      obtain ⟨h0, _⟩ := C02.inner_self_nonneg (𝕜 := 𝕜) close1 (.prod m w .two comp) hs (.tup xs) hx
+      simp only [Space.inner] at h0
+      simp only [Space.norm, Space.inner, pNorm, roots_sqrt, ops_re, roots_close1]
+      exact ⟨Real.sq_sqrt h0, Real.sqrt_nonneg _⟩
+
+/-- `dist(x, y) = norm(x - y)` on tensor spaces (the constant weighting has its own code). -/
+theorem C02.tensor_dist_eq_norm_sub (close1 : ℝ → Bool) (n : Nat) (w : TW ℝ) (p : Expo ℝ)
+    (x y : Nat → 𝕜) :
+    Space.dist (ops 𝕜) (roots close1) (.tens n w p) (.vec x) (.vec y) =
+      Space.norm (ops 𝕜) (roots close1) (.tens n w p) ((El.vec x).sub (.vec y)) := by
+  cases w <;> cases p <;> simp [Space.dist, Space.norm, El.sub, tDist, tNorm]
+
+/-- `dist(x, y) = norm(x - y)` on discretized spaces: scaling both arguments at the boundary
+and taking the tensor distance equals the norm of the (scaled) difference. -/
+theorem C02.discr_dist_eq_norm_sub (close1 : ℝ → Bool) (u : Bool) (axes : List (Axis ℝ)) (w : TW ℝ)
+    (p : Expo ℝ) (x y : Nat → 𝕜) :
+    Space.dist (ops 𝕜) (roots close1) (.discr u axes w p) (.vec x) (.vec y) =
+      Space.norm (ops 𝕜) (roots close1) (.discr u axes w p) ((El.vec x).sub (.vec y)) := by
+  cases w <;> cases p <;>
+    simp only [Space.dist, Space.norm, El.sub, dDist, dNorm, tDist, tNorm] <;>
+    split_ifs <;> simp only [sub_mul]
